@@ -340,8 +340,11 @@ def _run_case(item):
 
 def run(ctx: Ctx):
     from ..translate import gen
-    gen.regenerate(ctx, ["Constants"])
+    gen.regenerate(ctx, ["Constants", "StepBody"])
     leanproj.check_theorems(ctx, MODULE, THEOREMS)
+    from .registry import THEOREMS_STEPTIE
+    # translator tie: thermostat, velocity Verlet, thermostat - in that order, in every engine that has a thermostat
+    leanproj.check_theorems(ctx, "PyseqmVerif.Properties.StepTie", [t for t in THEOREMS_STEPTIE if "langevin" in t or "damped" in t or "basic" in t])
     drv = leanproj.Driver()
     try:
         try:
